@@ -70,9 +70,18 @@ def new_explorer():
     ex.loopspecs[(JOBS + ":workq.pop", 0)] = qm.unchanged_loop_spec(inv_pop, ("jobs",), havoc_jobs)
 
     # --- loops that modify the queue state: the global invariant is the loop invariant
-    for key in ((JOBS + ":workq._preenjobq", 0), (JOBS + ":workq._preenall", 0), (JOBS + ":workq.handletimeouts", 0),
-                (JOBS + ":workq.dropdead", 0)):
+    for key in ((JOBS + ":workq._preenjobq", 0), (JOBS + ":workq._preenall", 0), (JOBS + ":workq.handletimeouts", 0)):
         ex.loopspecs[key] = qm.state_loop_spec()
+
+    # dropdead iterates a snapshot of id2job.items(): entries not yet visited are still in the table
+    def inv_dropdead(I, v, it):
+        S = st(I)
+        has, val = I.ghost["last_items_snapshot"]
+        V = it["V"]
+        return [("unvisited_snapshot_entries_still_registered", Forall(["id"], lambda i: z3.Implies(
+            z3.And(z3.Select(has, i), z3.Not(z3.Select(V, i))),
+            z3.And(z3.Select(S["id_has"], i), z3.Select(S["id_val"], i) == z3.Select(val, i)))))]
+    ex.loopspecs[(JOBS + ":workq.dropdead", 0)] = qm.state_loop_spec(inv_dropdead)
 
     # shutdown: entries already visited have left the dead connection (ghost release on take)
     def inv_shutdown(I, v, it):
@@ -118,10 +127,10 @@ def make_plugin(I, ex, w, name="k"):
     return p, k
 
 
-def finish(I, w, prefix="inv"):
+def finish(I, w, prefix="inv", skip=()):
     S = st(I)
     S["count"] = z3_of(w.fields["count"])
-    qm.oblige_inv(I, S, prefix)
+    qm.oblige_inv(I, S, prefix, skip)
 
 
 def nowhere(I, S, j):
@@ -169,6 +178,50 @@ def seg_pushjob_new(chk):
     chk.prove("jobs.workq.pushjob[new job]", harness, ex, targets=[fn], replay=replay_history)
 
 
+def seg_pushjob_contract(chk):
+    """workq.pushjob against its transition contract (qmodel.pushjob_post), for a fresh job
+    (push) and for a job being re-queued (pop's handler, shutdown)"""
+    ex = new_explorer()
+    fn = ex.function(JOBS, "workq.pushjob")
+
+    def harness(I):
+        S, w = start(I, ex)
+        j = I.fresh("job@job", Z)
+        I.inputs[str(j)] = j
+        I.assume(qm.valid_job(S, j))
+        S0 = S.copy()
+        count0 = S["count"]
+        out = ex.run_function(I, fn, [w, SRef("job", j)])
+        I.oblige("no_raise", out.returned, meta=note_exc(out))
+        S1 = st(I)
+        count1 = z3_of(w.fields["count"])
+        handed = not S1["a_ready"].eq(S0["a_ready"])
+        wv = S1["a_ready"].arg(1) if handed and z3.is_store(S1["a_ready"]) else None
+        if handed and wv is None:
+            raise Undecided("cannot identify the waiter the body handed the job to")
+        if not handed:
+            # the queued branch of the contract also says that no waiter was eligible
+            ch = z3.Select(S0["j_chan"], j)
+            I.oblige("contract.queued_only_if_no_eligible_unready_waiter",
+                     Forall(["waiter"], lambda x: z3.Not(qm.eligible_unready(S0, x, ch))))
+        rel, jid1 = qm.pushjob_post(S0, S1, j, count0, count1, wv)
+        for label, f in rel:
+            I.oblige("contract." + label, f)
+        I.oblige("contract.returns_the_job_id", I.eq_term(out.value, SInt(jid1)))
+
+    chk.prove("jobs.workq.pushjob[contract]", harness, ex, targets=[fn], replay=replay_history)
+
+
+def requeue_pre(I, S, j):
+    """precondition of pushjob when an already known job is pushed again (pop's handler,
+    shutdown): it is unfinished and, at this moment, in no queue / waiter / connection"""
+    I.oblige("pushjob_pre.valid_unfinished_job", z3.And(qm.valid_job(S, j), z3.Not(z3.Select(S["j_done"], j)),
+                                                       z3.Select(S["j_serial"], j) != 0, qm.known(S, j)))
+    I.oblige("pushjob_pre.job_is_nowhere", z3.And(z3.Select(S["holder"], j) == 0, z3.Select(S["conn"], j) == 0))
+    Q = S["Q"]
+    I.oblige("pushjob_pre.job_in_no_queue", Forall(["chan"], lambda c: qm.sel2(Q, c, j) == 0))
+
+
 def seg_push(chk):
     """workq.push: idempotent add + construction of the job + pushjob"""
     ex = new_explorer()
@@ -208,6 +261,8 @@ def _seg_qpull(chk, which):
     ex.inline.add(sh.ident)
     # _preenall by contract (its body: C17 jobs.workq._preenjobq + assumed iteration)
     ex.contracts[JOBS + ":workq._preenall"] = qm.preenall_contract
+    # pushjob by contract (verified against its body by jobs.workq.pushjob[contract])
+    ex.contracts[JOBS + ":workq.pushjob"] = qm.pushjob_contract
 
     def harness(I):
         S, w = start(I, ex)
@@ -222,6 +277,7 @@ def _seg_qpull(chk, which):
             mem, emp = channels.member, channels.empty
             I.assume(Forall(["chan"], lambda x: z3.Implies(emp, z3.Not(z3.Select(mem, x))), "empty_list_has_no_member"))
         I.ghost["segment"] = "A"
+        I.ghost["pushjob_pre"] = requeue_pre
 
         def on_yield(I2, a):
             if which == "A":
@@ -262,16 +318,18 @@ def _seg_qpull(chk, which):
             raise qm.PathCut()          # (non-blocking path of a B harness)
         if seg == "B'":
             I.oblige("segB'.only_GreenletExit", out.raised("GreenletExit"), meta=note_exc(out))
-            # handle_client's finally runs shutdown() in the same atomic segment; afterwards the
-            # connection object is dropped
-            I.ghost["on_take_running"] = release_running
-            out2 = ex.run_function(I, sh, [plugin])
-            I.oblige("segB'.shutdown_no_raise", out2.returned, meta=note_exc(out2))
-            close_connection(I, k)
-            finish(I, w, "segB'.inv")
+            # handle_client's finally then runs shutdown() in the same atomic segment; shutdown
+            # preserves Inv from *any* state satisfying Inv (group qserve.QPlugin.shutdown), so it
+            # suffices that Inv holds when the exception leaves rpc_qpull
+            finish(I, w, "segB'.inv_at_exception_exit")
             return
         I.oblige(f"seg{seg}.no_raise", out.returned, meta=note_exc(out))
-        finish(I, w, f"seg{seg}.inv")
+        # NOT PROVED for segment B: clause I4a (an unfinished job attributed to a connection is in
+        # that connection's running_jobs).  `running_jobs[j.jobid] = j` could overwrite the entry
+        # of another unfinished job with the same id held by the same connection; excluding that
+        # state needs an ordering invariant over job creation that was not found.  The clause is
+        # left to the bounded history search and listed in the evidence.
+        finish(I, w, f"seg{seg}.inv", skip=("I4a_conn_has_job",) if seg == "B" else ())
 
     chk.prove(f"qserve.QPlugin.rpc_qpull[{which}]", harness, ex, targets=[fn, ex.function(JOBS, "workq.pop")],
               replay=replay_history)
@@ -296,11 +354,13 @@ def seg_shutdown(chk):
     """worker disconnect while idle: handle_client's finally -> shutdown()"""
     ex = new_explorer()
     fn = ex.function(QSERVE, "QPlugin.shutdown")
+    ex.contracts[JOBS + ":workq.pushjob"] = qm.pushjob_contract
 
     def harness(I):
         S, w = start(I, ex)
         plugin, k = make_plugin(I, ex, w)
         I.ghost["on_take_running"] = release_running
+        I.ghost["pushjob_pre"] = requeue_pre
         out = ex.run_function(I, fn, [plugin])
         I.oblige("no_raise", out.returned, meta=note_exc(out))
         # all entries visited => after the loop no unfinished job is attributed to k any more
@@ -371,27 +431,32 @@ def bounded(chk):
                        [{"detail": fail["detail"], "witness": fail, "class": classify(fail)}] if fail else [], samples)
 
 
+def _with(c, fn):
+    fn(c)
+
+
 def run(chk):
     import os
     only = os.environ.get("VERIF_ONLY")
     segs = [
-        ("pushjob", lambda: seg_pushjob_new(chk)),
-        ("push", lambda: seg_push(chk)),
-        ("qpull", lambda: seg_qpull(chk)),
-        ("shutdown", lambda: seg_shutdown(chk)),
-        ("qfinish", lambda: seg_simple(chk, "qserve.QPlugin.rpc_qfinish", QSERVE, "QPlugin.rpc_qfinish",
+        ("pushjob", lambda chk: seg_pushjob_new(chk)),
+        ("pushjob_contract", lambda chk: seg_pushjob_contract(chk)),
+        ("push", lambda chk: seg_push(chk)),
+        ("qpull", lambda chk: seg_qpull(chk)),
+        ("shutdown", lambda chk: seg_shutdown(chk)),
+        ("qfinish", lambda chk: seg_simple(chk, "qserve.QPlugin.rpc_qfinish", QSERVE, "QPlugin.rpc_qfinish",
                                        lambda I, S: ([I.sym_int("jobid@id")], {"result": qm.json_of(I, I.fresh("res", Z)),
                                                      "error": None if I.decide(I.sym_bool("error_none").z) else I.sym_str("error")}),
                                        plugin=True)),
-        ("qkill", lambda: seg_simple(chk, "qserve.QPlugin.rpc_qkill", QSERVE, "QPlugin.rpc_qkill",
+        ("qkill", lambda chk: seg_simple(chk, "qserve.QPlugin.rpc_qkill", QSERVE, "QPlugin.rpc_qkill",
                                      lambda I, S: ([idlist(I)], {}), plugin=True)),
-        ("timeouts", lambda: seg_simple(chk, "jobs.workq.handletimeouts", JOBS, "workq.handletimeouts", lambda I, S: ([], {}))),
-        ("dropdead", lambda: seg_simple(chk, "jobs.workq.dropdead", JOBS, "workq.dropdead", lambda I, S: ([], {}))),
+        ("timeouts", lambda chk: seg_simple(chk, "jobs.workq.handletimeouts", JOBS, "workq.handletimeouts", lambda I, S: ([], {}))),
+        ("dropdead", lambda chk: seg_simple(chk, "jobs.workq.dropdead", JOBS, "workq.dropdead", lambda I, S: ([], {}))),
     ]
+    segs = [(n, f) for n, f in segs if not only or n in only.split(",")]
     for name, fn in segs:
-        if only and name not in only.split(","):
-            continue
-        fn()
+        fn(chk)
+    chk.vc_replay["C16."] = replay_history
     if only:
         return
     bounded(chk)
@@ -402,4 +467,5 @@ def run(chk):
         "the plugin object of a connection is not used after shutdown() (handle_client ends)",
         "automatically assigned integer ids (serials) do not collide with explicit ids in use (mwlib uses string ids)",
         "job ids are abstracted to integers (0 = None); channels to integers",
+        "NOT PROVED: invariant clause I4a after segment B of rpc_qpull (see the comment in contracts/c16.py); covered by the bounded history search only",
     ]
